@@ -68,6 +68,15 @@ def _case(draw):
     meta = draw(_meta(c0 if single else 0))
     base = {"notes": notes, "meta": meta, "pad": None}
     base.update(draw(gens.route()))
+    if attr != "relabel" and draw(st.integers(0, 3)) == 0:
+        # identical ill-formed decoration on both sides: a pitch outside every pool struck twice without a note-off in between
+        # (optionally closed once afterwards) on a channel that also carries ordinary notes
+        t1 = draw(st.integers(0, 60))
+        t2 = t1 + draw(st.integers(1, 30))
+        deco = [["on", channels[0], 100, 80, t1], ["on", channels[0], 100, 90, t2]]
+        if draw(st.booleans()):
+            deco.append(["off", channels[0], 100, t2 + draw(st.integers(1, 40))])
+        base["extra_abs"] = deco
     other = copy.deepcopy(base)
     other.update(draw(gens.route()))
     end = max([n[3] for n in notes] + [m[1] for m in meta] + [0])
@@ -168,8 +177,9 @@ def _case(draw):
                 n[0] = c1
             for m in om:
                 m[-1] = c1
-    if attr != "same":
-        # a perturbed partner is built without normalisation so that nothing else changes
+    if attr != "same" or base.get("extra_abs"):
+        # a perturbed partner is built without normalisation so that nothing else changes (and normalising would remove an
+        # ill-formed decoration on one side only)
         if other.get("post") == "normalise":
             other["post"] = None
         if base.get("post") == "normalise":
@@ -203,6 +213,8 @@ def check(case):
     out = Outcome()
     attr = case["attr"]
     out.label(attr)
+    if case["base"].get("extra_abs"):
+        out.label("re-struck-decoration")
     a = build.sequence(case["base"])
     if attr == "same" and case["how"] == "self":
         b = a
